@@ -52,6 +52,17 @@ EDGE = [
     "select a from int1.t1 where a in (1, (select max(a) from int1.u1))", "select a from int1.t1 where a not in (0, int1.t1.b, 3)",
     "select a from int1.t1 where b in (1, 2) and a in (2, (select min(b) from int1.u1 where int1.u1.c in (1, int1.u1.a)))",
     "select coalesce(int1.t1.a, int1.t1.b, 0) as x from int1.t1 where coalesce(1, int1.t1.c) = 1",
+    # a full-path column name in every place an expression can stand (window specifications with and without PARTITION BY, casts, CASE,
+    # BETWEEN bounds, function arguments, signs, sort expressions, ON clauses, EXISTS)
+    "select int1.t1.a, sum(int1.t1.b) over (order by int1.t1.c desc) as s from int1.t1",
+    "select sum(int1.t1.b) over (partition by int1.t1.a) as s from int1.t1",
+    "select sum(int1.t1.b) over (partition by int1.t1.a order by int1.t1.c) as s, row_number() over (order by int1.t1.a) as r from int1.t1",
+    "select cast(int1.t1.a as int) as x, case when int1.t1.a > 1 then int1.t1.b else int1.t1.c end as y from int1.t1",
+    "select int1.t1.a from int1.t1 where int1.t1.a between int1.t1.b and int1.t1.c and not int1.t1.a is null",
+    "select f(int1.t1.a, g(int1.t1.b)) as v from int1.t1 where exists (select 1 from int1.u1 where int1.u1.a = 1)",
+    "select -int1.t1.a as n from int1.t1 order by int1.t1.b + 1, abs(int1.t1.c) desc",
+    "select * from int1.t1 join int1.u1 on int1.t1.a = int1.u1.a and int1.u1.b between int1.t1.b and 3",
+    "select count(distinct int1.t1.a) as n, max(int1.t1.b) as m from int1.t1 group by int1.t1.c + 1 having min(int1.t1.a) > 0",
     # column and table names that need quoting (dots, blanks, keywords): the name-keeping alias is that one name
     "select int1.t1.`price.usd`, a from int1.t1", "select `a.b`, `c d`, `select` from int1.t1 where `a.b` > 1", "select t1.`x.y.z` from int1.t1 order by t1.`x.y.z`",
     "select `p.q` from int1.`t.1` where `p.q` = 1", "select int1.`t.1`.`p.q`, int1.`t.1`.a from int1.`t.1`",
